@@ -19,7 +19,7 @@
    by a polyline that avoids all of them get the same answer) -- provided the joins made by the
    path following are exact (ejoins, decidable per instance: ejoins_b).  This is the theorem
    that makes the oracle's "one sample point per cell" a COMPLETE judgement for polygons.
-   (5) C01_union_sound / C01_intersection_sound: ONE-STEP SOUNDNESS of | and & for two simple
+   (5) C01_union_sound / C01_intersection_sound / C01_difference_sound: ONE-STEP SOUNDNESS of |, & and - for two simple
    counter-clockwise polygons whose boundaries cross (the recombination branch): the winding
    numbers of the result curves add up to the indicator of the union (intersection) at every
    point p whose vertical line avoids the vertices, and -- by (4) -- on the whole cell of p.
@@ -32,7 +32,7 @@
    (sound_hyps_b).  What remains of C01_partial: operands with holes / several components in
    this branch, and simple01 for arbitrary simple polygons (the Jordan curve theorem). *)
 From Coq Require Import List Bool.
-From SV Require Import Spec.Spec Lemmas.Logic Lemmas.Fuel Lemmas.Construct Lemmas.Measure Lemmas.Cells Lemmas.CellsAll Lemmas.RaySum Lemmas.UnionSound.
+From SV Require Import Spec.Spec Lemmas.Logic Lemmas.Fuel Lemmas.Construct Lemmas.Measure Lemmas.Cells Lemmas.CellsAll Lemmas.RaySum Lemmas.UnionSound Lemmas.DiffSound.
 Import ListNotations.
 Open Scope Q_scope.
 
@@ -130,6 +130,22 @@ Theorem C01_intersection_sound : forall ja jb a' b' p,
   Zsum (map (fun j => wn_lines j p) (jordans s))
   = (if (wn_lines ja p =? 1)%Z && (wn_lines jb p =? 1)%Z then 1 else 0)%Z.
 Proof. exact op_and_inter_sound. Qed.
+(* ... and of the difference A - B = A & ~B (the recombination runs on dA and the reversed dB) *)
+Theorem C01_difference_sound : forall ja jb a' p,
+  all_lines ja = true -> all_lines jb = true -> closed_chain ja = true -> closed_chain jb = true ->
+  jordan_pos ja = true -> jordan_pos jb = true -> simple01 ja -> simple01 jb ->
+  Subset.general_position ja (invert jb) -> tolerance_free ja (invert jb) ->
+  let b' := sub_operand_b ja jb in
+  mids_tol_exact a' b' -> mids_tol_exact b' a' ->
+  line_avoids_vertices a' b' (px p) -> no_common ja jb (px p) ->
+  forall s, op_sub (SC (CS ja)) (SC (CS jb)) = Ok (a', s) ->
+  contains_shape (SC (CS ja)) (SC (CS (invert jb))) = Ok false ->
+  contains_shape (SC (CS (invert jb))) (SC (CS ja)) = Ok false ->
+  faithful_follow (jordans a' ++ jordans b') (midpoints_shapes a' b' false true) ->
+  Zsum (map (fun j => wn_lines j p) (jordans s))
+  = (if (wn_lines ja p =? 1)%Z && (wn_lines jb p =? 0)%Z then 1 else 0)%Z.
+Proof. exact op_sub_diff_sound. Qed.
+Print Assumptions C01_difference_sound.
 (* all hypotheses except simple01 decided by evaluation *)
 Theorem C01_union_sound_checked : forall ja jb a' b' new p,
   simple01 ja -> simple01 jb -> sound_hyps_b ja jb true false p = true ->
